@@ -272,6 +272,27 @@ def load_known():
     return [e for e in doc.get("findings", []) if e.get("status", "open") == "open"]
 
 
+def _sub(want, got):
+    """want is contained in got (dicts recursively, everything else by equality)"""
+    if isinstance(want, dict):
+        return isinstance(got, dict) and all(k in got and _sub(v, got[k]) for k, v in want.items())
+    return want == got
+
+
+def _input_matches(spec, detail):
+    """A known finding is identified by the failing INPUT, not only by the clause: 'input' = {"act": {...}, "obj": {...}}
+    must be contained in the violation's action and in the receiver's pre-state.  Without 'input' the key decides."""
+    if not spec:
+        return True
+    t = detail.get("transition") if isinstance(detail, dict) else None
+    if not isinstance(t, dict) or "act" not in t:
+        return False
+    if not _sub(spec.get("act", {}), t["act"]):
+        return False
+    obj = t.get("pre", {}).get(t["act"].get("obj"), {})
+    return _sub(spec.get("obj", {}), obj)
+
+
 class Reporter:
     """Collects violations of one property; prints KNOWN-FINDING / VIOLATION lines at the end."""
 
@@ -286,7 +307,7 @@ class Reporter:
         """key: stable identification of the failing call site + input class;
         detail: JSON-able replay object"""
         for k in self.known:
-            if re.fullmatch(k["key"], key):
+            if re.fullmatch(k["key"], key) and _input_matches(k.get("input"), detail):
                 self.hit_known.setdefault(k["key"], [k, 0])
                 self.hit_known[k["key"]][1] += 1
                 return
